@@ -36,6 +36,41 @@ class RecVal(TupleVal):
         return r
 
 
+class IterVal:
+    """What a generator function of the repository returns: an iterable of `elem` (which may be a record)."""
+
+    __slots__ = ("elem",)
+
+    def __init__(self, elem):
+        self.elem = elem
+
+    def __eq__(self, other):
+        return isinstance(other, IterVal) and self.elem == other.elem
+
+    def __hash__(self):
+        return hash(("iter", self.elem))
+
+
+def _own_yields(func: FuncInfo) -> bool:
+    cached = getattr(func, "_pgv_isgen", None)
+    if cached is None:
+        cached = False
+        stack = list(func.node.body)
+        while stack:
+            n = stack.pop()
+            if isinstance(n, (ast.Yield, ast.YieldFrom)):
+                cached = True
+                break
+            if isinstance(n, (ast.FunctionDef, ast.AsyncFunctionDef, ast.Lambda, ast.ClassDef)):
+                continue
+            stack.extend(ast.iter_child_nodes(n))
+        try:
+            func._pgv_isgen = cached
+        except Exception:
+            pass
+    return cached
+
+
 def _namedtuple_fields(cls: ClassInfo):
     """(field names, default expressions) of a repository class derived from typing.NamedTuple; None for other classes."""
     if cls is None or cls.methods.get("__new__") or cls.methods.get("__init__"):
@@ -124,7 +159,7 @@ class Domain:
 
 
 class Frame:
-    __slots__ = ("func", "concrete", "env", "inst", "ret", "stack", "depth")
+    __slots__ = ("func", "concrete", "env", "inst", "ret", "stack", "depth", "yields")
 
     def __init__(self, func, concrete, env, stack, depth):
         self.func: FuncInfo = func
@@ -132,6 +167,7 @@ class Frame:
         self.env: Dict[str, object] = env
         self.inst: Dict[str, object] = {}  # self.attr values assigned so far in this frame
         self.ret = None
+        self.yields = None
         self.stack: Tuple = stack  # ((func, call node), ...) call chain for reports
         self.depth = depth
 
@@ -158,6 +194,8 @@ class Engine:
 
     # --------------------------------------------------------------- helpers
     def collapse(self, v):
+        if isinstance(v, IterVal):
+            return self.dom.container([self.collapse(v.elem)])
         if isinstance(v, TupleVal):
             out = None
             for item in v:
@@ -166,6 +204,12 @@ class Engine:
         return v
 
     def join(self, a, b):
+        if a is None and isinstance(b, (IterVal, RecVal)):
+            return b
+        if b is None and isinstance(a, (IterVal, RecVal)):
+            return a
+        if isinstance(a, IterVal) and isinstance(b, IterVal):
+            return IterVal(self.join(a.elem, b.elem))
         if isinstance(a, RecVal) or isinstance(b, RecVal):
             # records of the same type are joined field by field; None (the other arm of an Optional result) is left out
             if isinstance(a, RecVal) and isinstance(b, RecVal) and a.fields == b.fields:
@@ -297,6 +341,8 @@ class Engine:
                 fr.inst.update(inst)
             self.block(func.node.body, fr)
             result = fr.ret if fr.ret is not None else self.dom.const(None)
+            if _own_yields(func):
+                result = IterVal(fr.yields if fr.yields is not None else self.dom.top())
         finally:
             self._active.discard(akey)
         if key is not None:
@@ -349,10 +395,10 @@ class Engine:
                 fr.env = self.joinenv(env1, fr.env)
                 fr.inst = self.joinenv(inst1, fr.inst)
         elif isinstance(st, (ast.For, ast.AsyncFor)):
-            it = self.expr(st.iter, fr)
+            it = self.expr(st.iter, fr, keep_iter=True)
             for _ in range(2):
                 before_env, before_inst = dict(fr.env), dict(fr.inst)
-                self.assign(st.target, self.dom.elem(it), fr, st)
+                self.assign(st.target, it.elem if isinstance(it, IterVal) else self.dom.elem(it), fr, st)
                 self.block(st.body, fr)
                 fr.env = self.joinenv(before_env, fr.env)
                 fr.inst = self.joinenv(before_inst, fr.inst)
@@ -435,8 +481,10 @@ class Engine:
                 fr.inst[base.attr] = self.join(cur, self.dom.container([value]))
 
     # ----------------------------------------------------------- expressions
-    def expr(self, node, fr: Frame, keep_tuple: bool = False, keep_rec: bool = False):
+    def expr(self, node, fr: Frame, keep_tuple: bool = False, keep_rec: bool = False, keep_iter: bool = False):
         v = self._expr(node, fr)
+        if isinstance(v, IterVal):
+            return v if keep_iter else self.collapse(v)
         if isinstance(v, RecVal) and (keep_rec or keep_tuple):
             return v
         if isinstance(v, TupleVal) and not keep_tuple:
@@ -772,6 +820,16 @@ class Engine:
 
     def x_Starred(self, node, fr):
         return self.expr(node.value, fr)
+
+    def x_Yield(self, node, fr):
+        v = self.expr(node.value, fr, keep_rec=True) if node.value is not None else self.dom.const(None)
+        fr.yields = self.join(fr.yields, v)
+        return self.dom.top()
+
+    def x_YieldFrom(self, node, fr):
+        v = self.expr(node.value, fr, keep_iter=True)
+        fr.yields = self.join(fr.yields, v.elem if isinstance(v, IterVal) else self.dom.elem(v))
+        return self.dom.top()
 
     def x_Lambda(self, node, fr):
         return self.dom.top()
